@@ -196,6 +196,14 @@ def match_known(known, pid, mechanism):
     return None
 
 
+def _killpg(p):
+    import signal
+    try:
+        os.killpg(p.pid, signal.SIGKILL)
+    except (ProcessLookupError, PermissionError):
+        pass
+
+
 def run_check(pid, tier, seed, replay=None):
     env.bootstrap()
     mod = importlib.import_module(MODULES[pid])
@@ -226,7 +234,7 @@ def run_check(pid, tier, seed, replay=None):
         p = subprocess.Popen(
             [sys.executable, '-m', 'vf.shard', pid, tier, str(seed), str(sh),
              str(nshards), out, only],
-            cwd=VERIF, env=e, stdout=subprocess.DEVNULL,
+            cwd=VERIF, env=e, stdout=subprocess.DEVNULL, start_new_session=True,
             stderr=open(os.path.join(tmpdir, 'shard-%d.err' % sh), 'w'))
         procs.append((sh, p, out))
     results = []
@@ -237,10 +245,11 @@ def run_check(pid, tier, seed, replay=None):
         try:
             p.wait(timeout=left)
         except subprocess.TimeoutExpired:
-            p.kill()
+            _killpg(p)
             p.wait()
             inconclusive.append('shard %d: watchdog fired after %.0fs' % (sh, watchdog))
             continue
+        _killpg(p)      # reap anything a shard may have left behind (forked children)
         if not os.path.exists(out):
             err = open(os.path.join(tmpdir, 'shard-%d.err' % sh)).read()[-1500:]
             inconclusive.append('shard %d: died rc=%s: %s' % (sh, p.returncode, err))
